@@ -5,7 +5,7 @@ WidthVals(w) == IF w <= 9 THEN (-(Pow2(w)) - 2)..(Pow2(w) + 2)
                 ELSE Near(-(Pow2(w)), 2) \cup Near(-(Pow2(w - 1)), 2) \cup Near(0, 2) \cup Near(Pow2(w - 1), 2) \cup Near(Pow2(w), 2)
 ScWidth(W) == UNION {{S("width", w, None, None, v, 0, 0, FALSE, 0, 0) : v \in WidthVals(w)} : w \in W}
 ScMinMax == {S("minmax", 4, lo, hi, v, 0, 0, FALSE, 0, 0) :
-                lo \in {-3, 0, 2}, hi \in {2, 5, 7}, v \in -10..17}
+                lo \in {-3, 0, 2}, hi \in {0, 2, 5, 7}, v \in -10..17}
 \* relative offsets: instruction at 20, size 2 or 3, 8-bit and 4-bit offset fields, GLOBAL = 0..65535
 ScRel == {S("rel", w, lo, hi, t, 20, sz, fe, 0, 65535) :
              w \in {8}, lo \in {-4, None}, hi \in {3, None}, t \in 10..30, sz \in {2, 3}, fe \in BOOLEAN}
